@@ -490,6 +490,14 @@ func (l *lexer) primary() Expr {
 			l.expectOp(")")
 			return e
 		}
+		if t.text == "[" && l.isOp("]") {
+			// a slice type used as an argument, e.g. elems([]byte)
+			l.pos++
+			inner := l.primary()
+			if id, ok := inner.(*EIdent); ok {
+				return &EIdent{"[]" + id.Name}
+			}
+		}
 	}
 	panic(parseErr(fmt.Sprintf("unexpected token %q", t.text)))
 }
@@ -572,6 +580,7 @@ type Contract struct {
 	NoSafe   bool // skip safety sweep
 	Pure     bool
 	MayPanic bool
+	Logical  []QVar   // logical variables: universally quantified over the whole contract
 	Opaque   []string // spec functions whose definitions are hidden in this function's VCs
 	Uses     []string // lemmas assumed at entry (each proved separately)
 	Scenarios map[string]string // clause label -> scenario file under /verif/scenarios
@@ -752,6 +761,14 @@ func (cs *ContractSet) parseContractText(pkgPath, file string, lines []string, l
 				cur.Uses = strings.Fields(strings.ReplaceAll(rest, ",", " "))
 			case "opaque:":
 				cur.Opaque = strings.Fields(strings.ReplaceAll(rest, ",", " "))
+			case "logical":
+				for _, p := range strings.Split(rest, ",") {
+					n, ty, ok := strings.Cut(strings.TrimSpace(p), " ")
+					if !ok {
+						return fmt.Errorf("%s:%d: logical <name> <type>", file, line)
+					}
+					cur.Logical = append(cur.Logical, QVar{n, strings.TrimSpace(ty)})
+				}
 			case "scenario":
 				// scenario [label] file
 				lab, file, _ := strings.Cut(strings.TrimPrefix(rest, "["), "]")
